@@ -578,3 +578,409 @@ Proof.
 Qed.
 
 End Chain.
+
+(* ================================================================ *)
+(* 3. Subscriber entry points over chains                            *)
+
+Lemma go_stop_table st a : go_stop st a = stop_table (s_latest st) (a_stop a) (a_resync a).
+Proof. unfold go_stop, stop_table. destruct (a_resync a), (a_stop a); reflexivity. Qed.
+
+Lemma go_depth_table cfg a stop :
+  go_depth cfg a stop = depth_table (c_ads_depth cfg) (c_first_depth cfg) (a_depth a) stop.
+Proof.
+  unfold go_depth, depth_table, rl.
+  destruct (a_depth a =? 0)%Z; cbn [negb andb]; destruct stop; try reflexivity.
+  - destruct (c_first_depth cfg =? 0)%Z; reflexivity.
+  - rewrite andb_false_r. reflexivity.
+Qed.
+
+Definition ad_result (st : substate) (head : cid) (queried : bool) (stop : option cid) (seg : list cid) : callout :=
+  let moved := queried && negb (is_stop stop head) in
+  CO (ROk head) seg (missing (s_store st) seg)
+     (if moved then Some (head, length seg) else None)
+     (ST (if moved then Some head else s_latest st) (rev (missing (s_store st) seg) ++ s_store st)).
+
+Theorem sync_ad_chain_spec extra ch pub cfg a st head queried :
+  chain_wf EPrev extra ch = true -> c_strict cfg = true ->
+  resolve_hook cfg (a_hook a) = HNominate ->
+  the_head a = Some (head, queried) -> In head ch ->
+  let stop := stop_table (s_latest st) (a_stop a) (a_resync a) in
+  let lim := depth_table (c_ads_depth cfg) (c_first_depth cfg) (a_depth a) stop in
+  let seg := segment ch head stop lim in
+  avail pub (s_store st) seg = true ->
+  sync_ad_chain (chain_world EPrev extra ch pub) cfg a st = ad_result st head queried stop seg.
+Proof.
+  intros Hwf Hstrict Hhook Hhead Hin stop lim seg Hav.
+  unfold sync_ad_chain. rewrite go_stop_table. fold stop.
+  unfold the_head in Hhead.
+  assert (Hsel : match a_head a with
+                 | Some h => Some (h, false)
+                 | None => match a_pubhead a with Some h => Some (h, true) | None => None end
+                 end = Some (head, queried)) by exact Hhead.
+  rewrite Hsel. unfold ad_result.
+  destruct (is_stop stop head) eqn:Hs.
+  - assert (Hseg : seg = []) by (apply segment_stop_head; exact Hs).
+    rewrite Hseg. cbn. rewrite andb_false_r. destruct st; reflexivity.
+  - rewrite go_depth_table. fold lim. rewrite Hhook.
+    unfold ads_view. rewrite Hstrict.
+    change VPrev with (kind_view EPrev).
+    rewrite (handle_segment EPrev extra ch pub Hwf head stop lim (s_store st) (resolve_seg cfg (a_seg a)) Hin Hs Hav).
+    fold seg. unfold chain_out. cbn [h_err h_hooks h_reqs h_store h_count]. rewrite andb_true_r.
+    destruct queried; reflexivity.
+Qed.
+
+Theorem sync_entries_spec extra ch pub cfg ent depth scoped st :
+  chain_wf ENext extra ch = true ->
+  resolve_hook cfg scoped = HNominate -> In ent ch ->
+  let lim := entries_depth_table (c_entries_depth cfg) depth in
+  let seg := segment ch ent None lim in
+  avail pub (s_store st) seg = true ->
+  sync_entries (chain_world ENext extra ch pub) cfg (Some ent) depth scoped st =
+  CO RNil seg (missing (s_store st) seg) None
+     (ST (s_latest st) (rev (missing (s_store st) seg) ++ s_store st)).
+Proof.
+  intros Hwf Hhook Hin lim seg Hav.
+  unfold sync_entries, sync_entries_with. rewrite Hhook.
+  assert (Hlim : (if (depth =? 0)%Z then rl (c_entries_depth cfg) else rl depth) = lim).
+  { unfold lim, entries_depth_table, rl. destruct (depth =? 0)%Z; reflexivity. }
+  rewrite Hlim. change VNext with (kind_view ENext).
+  rewrite (handle_segment ENext extra ch pub Hwf ent None lim (s_store st) (c_seg_depth cfg) Hin eq_refl Hav).
+  reflexivity.
+Qed.
+
+(* a walk of depth 0 (SyncOneEntry) loads the root block only, in any world *)
+Lemma walk_depth0 f w v stop c store es req :
+  load w c store = Some (es, req) ->
+  walk (S f) w v stop (Some 0%nat) c store =
+  WO [c] (if req then [c] else []) (if req then c :: store else store) WOk.
+Proof.
+  intro H. cbn [walk]. rewrite H.
+  generalize (WO [c] (if req then [c] else []) (if req then c :: store else store) WOk).
+  induction (follow v es) as [|e l IH]; intro acc; [reflexivity|].
+  cbn [deeper Nat.ltb Nat.leb negb]. rewrite orb_true_r. apply IH.
+Qed.
+
+Theorem sync_one_spec w cfg ent st es req :
+  load w ent (s_store st) = Some (es, req) ->
+  sync_one w cfg (Some ent) st =
+  CO RNil (calls_of (c_hook cfg) [ent]) (if req then [ent] else []) None
+     (ST (s_latest st) (if req then ent :: s_store st else s_store st)).
+Proof.
+  intro H. unfold sync_one, sync_entries_with, handle.
+  assert (En : seg_enabled (-1) (c_hook cfg) (Some 0%nat) = false) by reflexivity.
+  rewrite En. unfold handle_plain, walk_fuel. rewrite (walk_depth0 _ w VAll None ent (s_store st) es req H).
+  reflexivity.
+Qed.
+
+(* ================================================================ *)
+(* 4. The all-links selector over trees                              *)
+
+Definition walk_kids (f : nat) (w : world) (v : view) (stop : option cid) (lim : option nat) :=
+  fix go (l : list cid) (acc : wout) : wout :=
+    match l with
+    | [] => acc
+    | e :: r =>
+      if is_stop stop e || negb (deeper lim) then go r acc
+      else let o := walk f w v stop (dec_lim lim) e (o_store acc) in
+           let acc' := WO (o_order acc ++ o_order o) (o_reqs acc ++ o_reqs o) (o_store o) (o_res o) in
+           match o_res o with WOk => go r acc' | _ => acc' end
+    end.
+
+Lemma walk_unfold f w v stop lim c store :
+  walk (S f) w v stop lim c store =
+  match load w c store with
+  | None => WO [] (if memb c store then [] else [c]) store (WMissing c)
+  | Some (es, req) =>
+    walk_kids f w v stop lim (follow v es)
+              (WO [c] (if req then [c] else []) (if req then c :: store else store) WOk)
+  end.
+Proof. reflexivity. Qed.
+
+Lemma preorder_node c ks : preorder (Node c ks) = c :: flat_map preorder ks.
+Proof. reflexivity. Qed.
+
+Lemma depth_kid c ks x : In x ks -> (depth x < depth (Node c ks))%nat.
+Proof.
+  cbn [depth]. induction ks as [|y r IH]; [contradiction|]. intros [->|H].
+  - lia.
+  - specialize (IH H). lia.
+Qed.
+
+Lemma dag_has_node d c ks :
+  dag_has d (Node c ks) =
+  match dag_get d c with
+  | Some es => list_eqb N.eqb (map snd es) (map root ks)
+  | None => false
+  end && forallb (dag_has d) ks.
+Proof. reflexivity. Qed.
+
+Lemma list_eqb_N_eq a b : list_eqb N.eqb a b = true -> a = b.
+Proof.
+  revert b. induction a as [|x a IH]; intros [|y b]; cbn; try discriminate; [reflexivity|].
+  intro H. apply andb_prop in H as [H1 H2]. apply N.eqb_eq in H1. subst. f_equal. apply IH. exact H2.
+Qed.
+
+Lemma follow_all es : follow VAll es = map snd es.
+Proof. unfold follow. f_equal. induction es as [|e l IH]; [reflexivity|]. cbn. now rewrite IH. Qed.
+
+Lemma avail_weaken' pub store store' l :
+  (forall x, memb x store = true -> memb x store' = true) ->
+  avail pub store l = true -> avail pub store' l = true.
+Proof.
+  intros H. unfold avail. rewrite !forallb_forall. intros A x Hx. specialize (A x Hx).
+  apply orb_true_iff in A as [A|A]; apply orb_true_iff; [left; auto|right; exact A].
+Qed.
+
+Lemma memb_rev_app x F store : memb x store = true -> memb x (rev F ++ store) = true.
+Proof. intro H. rewrite memb_app, H. apply orb_true_r. Qed.
+
+Section Tree.
+Variable d : dag.
+Variable pub : list cid.
+Let w := WORLD d pub.
+
+Lemma walk_tree : forall fuel t store,
+  (depth t <= fuel)%nat -> dag_has d t = true -> NoDup (preorder t) ->
+  avail pub store (preorder t) = true ->
+  walk fuel w VAll None None (root t) store =
+  WO (preorder t) (missing store (preorder t)) (rev (missing store (preorder t)) ++ store) WOk.
+Proof.
+  induction fuel as [|f IH]; intros [c ks] store Hd Hh Hn Hav; [cbn in Hd; lia|].
+  rewrite walk_unfold. cbn [root].
+  rewrite dag_has_node in Hh. apply andb_prop in Hh as [Hg Hks].
+  rewrite preorder_node in *.
+  destruct (dag_get d c) as [es|] eqn:G; [|discriminate]. apply list_eqb_N_eq in Hg.
+  cbn [avail forallb] in Hav. apply andb_prop in Hav as [Hac Hav].
+  unfold load, w. cbn [w_dag w_pub]. rewrite G.
+  set (req := negb (memb c store)).
+  assert (Hl : (if memb c store then Some (es, false) else if memb c pub then Some (es, true) else None) = Some (es, req)).
+  { unfold req. destruct (memb c store); [reflexivity|]. cbn in Hac. rewrite Hac. reflexivity. }
+  rewrite Hl. rewrite follow_all, Hg.
+  inversion Hn as [|? ? Hc Hn']; subst.
+  (* the children, one after the other *)
+  assert (Hkids : forall l acc,
+    (forall x, In x l -> In x ks) -> NoDup (flat_map preorder l) ->
+    avail pub (o_store acc) (flat_map preorder l) = true -> o_res acc = WOk ->
+    walk_kids f w VAll None None (map root l) acc =
+    WO (o_order acc ++ flat_map preorder l) (o_reqs acc ++ missing (o_store acc) (flat_map preorder l))
+       (rev (missing (o_store acc) (flat_map preorder l)) ++ o_store acc) WOk).
+  { induction l as [|x r IHl]; intros acc Hsub Hnd Ha Hr.
+    - cbn. rewrite !app_nil_r. destruct acc; cbn in *; subst; reflexivity.
+    - cbn [map walk_kids is_stop deeper negb orb flat_map dec_lim] in *.
+      assert (Hx : In x ks) by (apply Hsub; left; reflexivity).
+      rewrite avail_app in Ha. apply andb_prop in Ha as [Ha1 Ha2].
+      rewrite (IH x (o_store acc)).
+      + cbn [o_res o_order o_reqs o_store].
+        set (acc' := WO (o_order acc ++ preorder x) (o_reqs acc ++ missing (o_store acc) (preorder x))
+                        (rev (missing (o_store acc) (preorder x)) ++ o_store acc) WOk).
+        assert (Hm : missing (o_store acc') (flat_map preorder r) = missing (o_store acc) (flat_map preorder r)).
+        { apply missing_ext. intros y Hy. cbn [acc' o_store]. apply memb_missing_store.
+          intro X. apply missing_In in X as [X _]. eapply NoDup_app_disj; [exact Hnd|exact X|exact Hy]. }
+        rewrite (IHl acc').
+        * rewrite Hm. cbn [acc' o_order o_reqs o_store]. rewrite missing_app, rev_app_distr, <- !app_assoc. reflexivity.
+        * intros y Hy. apply Hsub. right. exact Hy.
+        * eapply NoDup_app_r. exact Hnd.
+        * eapply avail_weaken'; [|exact Ha2]. intros y Hy. cbn [acc' o_store]. apply memb_rev_app. exact Hy.
+        * reflexivity.
+      + pose proof (depth_kid c ks x Hx). lia.
+      + rewrite forallb_forall in Hks. apply Hks. exact Hx.
+      + eapply NoDup_app_l. exact Hnd.
+      + exact Ha1. }
+  rewrite (Hkids ks); cbn [o_order o_reqs o_store o_res]; try reflexivity; try assumption; [|auto|].
+  - set (Q := flat_map preorder ks) in *.
+    assert (Hm : missing (if req then c :: store else store) Q = missing store Q).
+    { apply missing_ext. intros y Hy. destruct req; [|reflexivity]. rewrite memb_cons.
+      destruct (y =? c) eqn:E; [apply N.eqb_eq in E; subst; contradiction|reflexivity]. }
+    rewrite Hm, missing_cons. fold req. destruct req; cbn [app rev]; rewrite <- ?app_assoc; reflexivity.
+  - eapply avail_weaken'; [|exact Hav]. intros y Hy. destruct req; [|exact Hy]. rewrite memb_cons, Hy. apply orb_true_r.
+Qed.
+
+End Tree.
+
+Theorem sync_all_tree d pub cfg scoped st t :
+  dag_has d t = true -> NoDup (preorder t) -> (depth t <= S (length d))%nat ->
+  avail pub (s_store st) (preorder t) = true ->
+  sync_all (WORLD d pub) cfg (Some (root t)) scoped st =
+  CO RNil (calls_of (resolve_hook cfg scoped) (preorder t)) (missing (s_store st) (preorder t)) None
+     (ST (s_latest st) (rev (missing (s_store st) (preorder t)) ++ s_store st)).
+Proof.
+  intros Hh Hn Hd Hav. unfold sync_all, sync_entries_with, handle.
+  assert (En : seg_enabled (-1) (resolve_hook cfg scoped) None = false) by reflexivity.
+  rewrite En. unfold handle_plain, walk_fuel. cbn [w_dag].
+  rewrite (walk_tree d pub (S (length d)) t (s_store st) Hd Hh Hn Hav). reflexivity.
+Qed.
+
+(* ================================================================ *)
+(* 4b. The property theorems, as stated in props/Properties_C01.v    *)
+
+Theorem walk_chain_spec_proved k extra ch pub head stop lim store :
+  chain_wf k extra ch = true -> In head ch -> is_stop stop head = false ->
+  let w := chain_world k extra ch pub in
+  let seg := segment ch head stop lim in
+  avail pub store seg = true ->
+  walk (walk_fuel w) w (kind_view k) stop lim head store =
+  WO seg (missing store seg) (rev (missing store seg) ++ store) WOk.
+Proof.
+  intros Hwf Hin Hs w seg Hav. destruct (from_split head ch Hin) as (pre & r & Ech & _ & Hn).
+  unfold seg in *. rewrite (segment_from ch head r pre stop lim Ech Hn Hs) in *.
+  apply (walk_chain k extra ch pub Hwf r pre head lim stop store (walk_fuel w) Ech); [|exact Hav].
+  unfold w. rewrite (walk_fuel_chain k extra ch pub), Ech, app_length. cbn. lia.
+Qed.
+
+Theorem segmented_eq_unsegmented_proved k extra ch pub head stop lim store segdl :
+  chain_wf k extra ch = true -> In head ch -> is_stop stop head = false ->
+  let w := chain_world k extra ch pub in
+  let seg := segment ch head stop lim in
+  avail pub store seg = true ->
+  handle w (kind_view k) stop lim segdl HNominate head store =
+    handle_plain w (kind_view k) stop lim HNominate head store /\
+  handle w (kind_view k) stop lim segdl HNominate head store =
+    HO seg (missing store seg) (rev (missing store seg) ++ store) (length seg) None.
+Proof.
+  intros Hwf Hin Hs w seg Hav. unfold w, seg in *.
+  pose proof (handle_segment k extra ch pub Hwf head stop lim store segdl Hin Hs Hav) as H1.
+  pose proof (handle_segment_unsegmented k extra ch pub Hwf head stop lim store (-1) HNominate eq_refl Hin Hs Hav) as H2.
+  change (handle (chain_world k extra ch pub) (kind_view k) stop lim (-1) HNominate head store)
+    with (handle_plain (chain_world k extra ch pub) (kind_view k) stop lim HNominate head store) in H2.
+  cbv zeta in H1, H2. split; [rewrite H1, H2; reflexivity|exact H1].
+Qed.
+
+Section AdChainCorollaries.
+Variables (extra : list edge) (ch pub : list cid) (cfg : subcfg) (a : adcall) (head : cid) (queried : bool).
+Hypothesis Hwf : chain_wf EPrev extra ch = true.
+Hypothesis Hstrict : c_strict cfg = true.
+Hypothesis Hhook : resolve_hook cfg (a_hook a) = HNominate.
+Hypothesis Hhead : the_head a = Some (head, queried).
+Hypothesis Hin : In head ch.
+
+Let w := chain_world EPrev extra ch pub.
+Let stop st := stop_table (s_latest st) (a_stop a) (a_resync a).
+Let lim st := depth_table (c_ads_depth cfg) (c_first_depth cfg) (a_depth a) (stop st).
+Let seg st := segment ch head (stop st) (lim st).
+
+Lemma cor_reported st :
+  avail pub (s_store st) (seg st) = true ->
+  let o := sync_ad_chain w cfg a st in
+  r_ret o = ROk head /\ r_hooks o = seg st /\ NoDup (r_hooks o) /\
+  (exists post, from head ch = r_hooks o ++ post) /\
+  (forall x, In x (r_hooks o) -> is_stop (stop st) x = false).
+Proof.
+  intros Hav o. unfold o, w. rewrite (sync_ad_chain_spec extra ch pub cfg a st head queried Hwf Hstrict Hhook Hhead Hin Hav).
+  cbn [ad_result r_ret r_hooks]. repeat split.
+  - apply segment_NoDup. apply nodupb_NoDup. unfold chain_wf in Hwf. apply andb_prop in Hwf as [_ H]. exact H.
+  - apply segment_prefix.
+  - intros x Hx. eapply segment_no_stop. exact Hx.
+Qed.
+
+Lemma cor_readable st :
+  avail pub (s_store st) (seg st) = true ->
+  forall x, In x (r_hooks (sync_ad_chain w cfg a st)) ->
+    memb x (s_store (r_state (sync_ad_chain w cfg a st))) = true.
+Proof.
+  intros Hav x. unfold w. rewrite (sync_ad_chain_spec extra ch pub cfg a st head queried Hwf Hstrict Hhook Hhead Hin Hav).
+  cbn [ad_result r_hooks r_state s_store]. intro Hx. rewrite memb_app.
+  destruct (memb x (s_store st)) eqn:M; [apply orb_true_r|].
+  apply orb_true_iff. left. apply memb_In. rewrite <- in_rev. unfold missing. apply filter_In. split; [exact Hx|].
+  rewrite M. reflexivity.
+Qed.
+
+Lemma cor_requests st :
+  avail pub (s_store st) (seg st) = true ->
+  let o := sync_ad_chain w cfg a st in
+  r_reqs o = missing (s_store st) (r_hooks o) /\
+  (forall x, In x (r_reqs o) ->
+     memb x (s_store st) = false /\ is_stop (stop st) x = false /\ In x (r_hooks o)) /\
+  (forall pre s post, from head ch = pre ++ s :: post -> is_stop (stop st) s = true ->
+     forall x, In x (s :: post) -> ~ In x (r_reqs o)).
+Proof.
+  intros Hav o. unfold o, w. rewrite (sync_ad_chain_spec extra ch pub cfg a st head queried Hwf Hstrict Hhook Hhead Hin Hav).
+  cbn [ad_result r_reqs r_hooks]. split; [reflexivity|]. split.
+  - intros x Hx. apply missing_In in Hx as [H1 H2]. repeat split; try assumption. eapply segment_no_stop. exact H1.
+  - intros pre s post E Hs x Hx Hr. apply missing_In in Hr as [Hr _].
+    (* the segment lies before the first stop block of the chain from the head on *)
+    unfold seg, segment in Hr. apply cut_In in Hr.
+    assert (Hnd : NoDup (from head ch)).
+    { destruct (from_suffix head ch) as [p0 E0]. assert (N : NoDup ch).
+      { apply nodupb_NoDup. unfold chain_wf in Hwf. apply andb_prop in Hwf as [_ H]. exact H. }
+      rewrite E0 in N. eapply NoDup_app_r. exact N. }
+    rewrite E in Hr, Hnd.
+    assert (Hpre : forall l, In x (take_until (stop st) (l ++ s :: post)) -> In x l).
+    { induction l as [|y l IH]; cbn.
+      - rewrite Hs. auto.
+      - destruct (is_stop (stop st) y); [contradiction|]. intros [->|H]; [left; reflexivity|right; auto]. }
+    apply Hpre in Hr. eapply NoDup_app_disj; [exact Hnd|exact Hr|exact Hx].
+Qed.
+
+Lemma cor_independent st1 st2 :
+  s_latest st1 = s_latest st2 ->
+  avail pub (s_store st1) (seg st1) = true -> avail pub (s_store st2) (seg st2) = true ->
+  let o1 := sync_ad_chain w cfg a st1 in let o2 := sync_ad_chain w cfg a st2 in
+  r_ret o1 = r_ret o2 /\ r_hooks o1 = r_hooks o2 /\ r_event o1 = r_event o2 /\
+  s_latest (r_state o1) = s_latest (r_state o2).
+Proof.
+  intros El H1 H2 o1 o2. unfold o1, o2, w.
+  rewrite (sync_ad_chain_spec extra ch pub cfg a st1 head queried Hwf Hstrict Hhook Hhead Hin H1).
+  rewrite (sync_ad_chain_spec extra ch pub cfg a st2 head queried Hwf Hstrict Hhook Hhead Hin H2).
+  unfold ad_result. cbn [r_ret r_hooks r_event r_state s_latest]. rewrite El. auto.
+Qed.
+
+Lemma cor_latest st :
+  avail pub (s_store st) (seg st) = true ->
+  let o := sync_ad_chain w cfg a st in
+  let moved := queried && negb (is_stop (stop st) head) in
+  s_latest (r_state o) = (if moved then Some head else s_latest st) /\
+  r_event o = (if moved then Some (head, length (r_hooks o)) else None).
+Proof.
+  intros Hav o moved. unfold o, w. rewrite (sync_ad_chain_spec extra ch pub cfg a st head queried Hwf Hstrict Hhook Hhead Hin Hav).
+  split; reflexivity.
+Qed.
+
+End AdChainCorollaries.
+
+(* ================================================================ *)
+(* 5. Non-vacuity                                                    *)
+
+(* a 5-chain 5 -> 4 -> 3 -> 2 -> 1 of advertisements (each with an Entries link the strict
+   selector ignores), latest sync = block 1 (so the stop is at position 4), depth limit 3,
+   segment size 2, block 4 already stored *)
+Definition ex_ch : list cid := [5; 4; 3; 2; 1].
+Definition ex_extra : list edge := [(EOther, 999)].
+Definition ex_cfg := CFG 3 0 2 0 true HNominate.
+Definition ex_call := ADCALL None None false 0 0 None (Some 5).
+Definition ex_st := ST (Some 1) [4].
+
+Example ex_wf : chain_wf EPrev ex_extra ex_ch = true.
+Proof. reflexivity. Qed.
+
+Example ex_segment :
+  segment ex_ch 5 (stop_table (Some 1) None false) (depth_table 3 0 0 (Some 1)) = [5; 4; 3].
+Proof. reflexivity. Qed.
+
+Example ex_avail : avail ex_ch [4] [5; 4; 3] = true.
+Proof. reflexivity. Qed.
+
+Example ex_sync :
+  sync_ad_chain (chain_world EPrev ex_extra ex_ch ex_ch) ex_cfg ex_call ex_st =
+  CO (ROk 5) [5; 4; 3] [5; 3] (Some (5, 3%nat)) (ST (Some 5) [3; 5; 4]).
+Proof. vm_compute. reflexivity. Qed.
+
+(* ... and the segmented loop really runs there (two segments) *)
+Example ex_segmented : seg_enabled 2 HNominate (Some 3%nat) = true.
+Proof. reflexivity. Qed.
+
+Definition ex_tree := Node 7 [Node 5 [Node 1 []; Node 2 []]; Node 6 [Node 3 []; Node 4 []]].
+Definition ex_tree_dag : dag :=
+  [(1, []); (2, []); (3, []); (4, []); (5, [(EOther, 1); (EOther, 2)]); (6, [(EOther, 3); (EOther, 4)]);
+   (7, [(EOther, 5); (EOther, 6)])].
+
+Example ex_tree_ok :
+  dag_has ex_tree_dag ex_tree = true /\ nodupb (preorder ex_tree) = true /\
+  preorder ex_tree = [7; 5; 1; 2; 6; 3; 4] /\ (depth ex_tree <= S (length ex_tree_dag))%nat.
+Proof. repeat split; try reflexivity. vm_compute. lia. Qed.
+
+(* a block reachable on two paths (not a tree) is handed to the hook once per path *)
+Example ex_diamond :
+  let d := [(1, []); (2, [(EOther, 1)]); (3, [(EOther, 1)]); (4, [(EOther, 2); (EOther, 3)])] in
+  o_order (walk 5 (WORLD d [1; 2; 3; 4]) VAll None None 4 []) = [4; 2; 1; 3; 1] /\
+  o_reqs (walk 5 (WORLD d [1; 2; 3; 4]) VAll None None 4 []) = [4; 2; 1; 3].
+Proof. split; reflexivity. Qed.
